@@ -59,6 +59,24 @@ CallInfo(e) ==
          [arg |-> IF PositionAccepted(a.pos) THEN "ok" ELSE "open", cmd |-> [kind |-> "runnerpos", pos |-> a.pos]]
     [] OTHER -> [arg |-> "ok", cmd |-> NoCmd]
 
+\* beyond the listed statements: scripts/control_device.py - which client class, operation and arguments a command line means
+\* (control_thermostat is left out: it needs the bundled IR database, an empty file at the pinned commit)
+CliPlan(e) ==
+  LET o == e.o IN
+  CASE e.action = "get_state" -> [api |-> 1, op |-> "get_state", a |-> [none |-> 0]]
+    [] e.action = "turn_on" -> [api |-> 1, op |-> "control_device", a |-> [on |-> 1, minutes |-> o.timer, big |-> FALSE]]
+    [] e.action = "turn_off" -> [api |-> 1, op |-> "control_device", a |-> [on |-> 0, minutes |-> 0, big |-> FALSE]]
+    [] e.action = "set_name" -> [api |-> 1, op |-> "set_device_name", a |-> [cps |-> o.name]]
+    [] e.action = "set_auto_shutdown" -> [api |-> 1, op |-> "set_auto_shutdown", a |-> [secs |-> 3600 * o.hours + 60 * o.minutes]]
+    [] e.action = "get_schedules" -> [api |-> 1, op |-> "get_schedules", a |-> [zone |-> o.zone]]
+    [] e.action = "delete_schedule" -> [api |-> 1, op |-> "delete_schedule", a |-> [slot |-> o.slot]]
+    [] e.action = "create_schedule" ->
+         [api |-> 1, op |-> "create_schedule", a |-> [start |-> o.start, end |-> o.end, days |-> o.days, zone |-> o.zone, now |-> o.now]]
+    [] e.action = "stop_shutter" -> [api |-> 2, op |-> "stop", a |-> [none |-> 0]]
+    [] e.action = "set_shutter_position" -> [api |-> 2, op |-> "set_position", a |-> [pos |-> o.pos]]
+    [] e.action = "get_thermostat_state" -> [api |-> 2, op |-> "get_breeze_state", a |-> [none |-> 0]]
+ControlPort(api) == IF api = 1 THEN 9957 ELSE 10000
+
 BreezeArgs(e) ==
   IF e.op = "control_breeze_device"
   THEN [set |-> e.a.set, state |-> e.a.state, mode |-> e.a.mode, temp |-> e.a.temp, fan |-> e.a.fan, swing |-> e.a.swing, update |-> e.a.update]
@@ -225,6 +243,14 @@ Step(e, s, rw, sl, ak, ls) ==
          LET ci == IF Supported(s.api, e.op) THEN CallInfo(e) ELSE [arg |-> "unsupported", cmd |-> NoCmd] IN
          Res(Cl(s.pc = "idle", "harness:call-while-busy"), "call-" \o e.op \o "-" \o ci.arg,
              BeginCall(s, e.op, ci.arg, ci.cmd, IF ci.arg = "unsupported" THEN NoBreeze ELSE BreezeArgs(e), e.clk), rw, sl)
+    [] e.ev = "Cli" ->         \* a command line was started and has connected to e.host : e.port
+         LET pl == CliPlan(e)
+             call == [op |-> pl.op, a |-> pl.a]
+             ci == CallInfo(call)
+         IN Res(   Cl(e.port = ControlPort(pl.api), "X04:control-port-of-the-device-type")
+                \o Cl(e.host = e.o.ip, "X04:address-given-on-the-command-line"),
+                "cli-" \o e.action \o "-" \o ci.arg,
+                BeginCall([Idle(pl.api, e.o.dev, IF "key" \in DOMAIN e.o THEN e.o.key ELSE <<0>>) EXCEPT !.conn = "open"], pl.op, ci.arg, ci.cmd, NoBreeze, e.clk), <<>>, <<>>)
     [] e.ev = "Write" ->
          IF s.pc = "login" /\ s.arg = "unsupported"
          THEN Res(<<"X01:frame-for-unsupported-operation">>, "write-unsupported", [OnWrite(s) EXCEPT !.free = TRUE], rw, sl)
@@ -251,7 +277,7 @@ Step(e, s, rw, sl, ak, ls) ==
     [] e.ev = "Ret" ->
          LET o == [out |-> e.out, ok |-> e.ok] IN
          IF s.pc = "cmd"
-         THEN Res(FinishClauses(s, o) \o (IF s.free THEN <<>> ELSE ReturnClauses(s, e, rw))
+         THEN Res(FinishClauses(s, o) \o (IF s.free \/ "cli" \in DOMAIN e THEN <<>> ELSE ReturnClauses(s, e, rw))
                   \o (IF s.op = "get_schedules" /\ ls /\ e.out = "return" /\ ~s.free THEN ReadBackClauses(sl, e.r) ELSE <<>>),
                   "ret-" \o e.out \o "-" \o Expect(s).must \o "-" \o Expect(s).why, OnRet(s), rw, sl)
          ELSE IF s.pc = "login" /\ s.arg = "unsupported"
